@@ -49,7 +49,7 @@ def run(c):
         if s["sc"] in deaths2 or s["sc"] in deaths:
             d = deaths2.get(s["sc"]) or deaths.get(s["sc"])
             c.report("death:%s:%s" % (d["kind"], s["api"]), "process %s with a dependency fault at call %d of %s: %s" % (d["kind"], s["k"], s["api"], (d.get("stderr") or "")[-200:]),
-                     {"scenario": s, "death": d})
+                     dict({"scenario": s, "death": d}, **c.rp("faults", s, validate=("DepFaultsTrace", "DepFaultsTrace.cfg"), strip=("sc", "panic", "ev", "ncalls"))))
             continue
         for e in res.get(s["sc"], []):
             e = {k: v for k, v in e.items() if k not in ("sc", "panic", "ev", "ncalls")}
@@ -79,7 +79,7 @@ def run(c):
             if not c.validate_traces("DepFaultsTrace", "DepFaultsTrace.cfg", ev3):
                 raise vf.FrameworkError("rejection not reproduced")
         c.report(key, "%s with %s at dependency call %d (%s): result %s, calls after the fault %s" % (s["api"], s["kind"], s["k"], fd, e.get("res"), after),
-                 {"scenario": s, "deps": deps, "end": e})
+                 dict({"scenario": s, "deps": deps, "end": e}, **c.rp("faults", s, validate=("DepFaultsTrace", "DepFaultsTrace.cfg"), strip=("sc", "panic", "ev", "ncalls"))))
     c.cov["evaluations"] = len(allsc)
     c.cov["traces_validated_against_impl"] = len(allsc)
     c.cov["fault_positions"] = len(runs)
